@@ -18,7 +18,7 @@ def configs(p):
 
 
 def main(pid, tier, seed, replay):
-    return P.standard_check(pid, LEVEL, tier, seed, configs, 20, 400, features,
+    return P.standard_check(pid, LEVEL, tier, seed, configs, 10, 300, features, proof_pid="C02", rule=
         "generated programs (all index signatures over signed/unsigned/symbol columns, aggregates, records, sentinel values) x "
         "{interpreter, -c, -C}; non-trivial = distinct program with a non-empty output", proof=True, workers=16,
         extra_tb=["g++ 12 and the OpenMP runtime compile and run the synthesised C++"])
